@@ -6,6 +6,6 @@ CONSTANTS MaxDepth = 3
   SplitContinues = TRUE
   SkipEmpty = FALSE
   SplitCachesExport = FALSE
-  SrcFRepass = TRUE
+  SrcFRepass = FALSE
 INVARIANT SeenIsExpected
 CHECK_DEADLOCK FALSE
